@@ -175,6 +175,17 @@ theorem upres_pRetract (T : List Tup) (id : Id) (x : Option Nat) : UPres T (pRet
       | exact h1
       | exact markChanged_uinv h1 (load_new' hl) rfl rfl
 
+theorem upres_pAct (T : List Tup) (id : Id) (a : Act) : UPres T (pAct id a) := by
+  intro s tx e h
+  unfold pAct
+  split
+  · exact h.same rfl
+  · rename_i tx1 x hl
+    have h1 := load_uinv h hl
+    split
+    · exact h1
+    · exact markChanged_uinv h1 (load_new' hl) rfl (applyAct_imm a x.row).2.2.1
+
 theorem upres_pPurge (T : List Tup) (id : Id) (b : Bool) : UPres T (pPurge id b) := by
   intro s tx e h
   unfold pPurge
@@ -241,6 +252,12 @@ theorem stageNewTup_uinv {t : Tup} {s : Store} {tx : Tx} {e : Option Err} {id : 
     · have : t' = t := by rw [r3] at htr; exact (Option.some.inj htr).symm
       exact absurd (this ▸ htq) (hgf q hq1 hkq hnq)
     · exact h.distinct q r hq1 hr1 hkq hkr hnq hnr t' htq htr
+
+theorem UInv.pActs {T : List Tup} (id : Id) (acts : List Act) {p : PS} (h : UInv T p) : UInv T (pActs id acts p) := by
+  unfold Tx.pActs
+  induction acts generalizing p with
+  | nil => exact h
+  | cons a r ih => exact ih (h.andThen (upres_pAct T id a) (fun _ ht => ht))
 
 macro "upres_chain" h:ident : tactic => `(tactic|
   repeat' (first
@@ -326,7 +343,12 @@ theorem applyClause_uinv (c : Clause) (s : Store) (tx : Tx) (e : Option Err) (hw
   | createConcept hh ty key val bad => simp only [applyClause]; (repeat' split) <;> upres_chain h
   | createRec k hh pay refs bad => simp only [applyClause]; (repeat' split) <;> upres_chain h
   | upsert hh ty key val expect => simp only [applyClause]; (repeat' split) <;> upres_chain h
-  | update t val expect bad => simp only [applyClause]; (repeat' split) <;> upres_chain h
+  | update t acts expect bad =>
+      simp only [applyClause]
+      split
+      · upres_chain h
+      · apply UInv.pActs
+        upres_chain h
   | setState t to expect => simp only [applyClause]; (repeat' split) <;> upres_chain h
   | retract t expect => simp only [applyClause]; (repeat' split) <;> upres_chain h
   | purge t bad => simp only [applyClause]; (repeat' split) <;> upres_chain h
